@@ -118,6 +118,14 @@ def observe(T, position, outcomes):
                 cases.append((conds + ([c] if c is not True else []), (('out', yes),) + WIN, 'done'))
             if c is not True:
                 cases.append((conds + ([T.not_(c)] if c is not False else []), (('out', no),) + WIN, 'done'))
+        elif position in ('else-defeat', 'then-defeat'):
+            # the branch not leading to defeat is the one whose output survives; the other one is undone
+            c = T.cmp('ne', v, 0)
+            yes, no = {'else-defeat': ((84, 78), (68,)), 'then-defeat': ((68,), (70, 78))}[position]
+            if c is not False:
+                cases.append((conds + ([c] if c is not True else []), tuple(('out', b) for b in yes) + WIN, 'done'))
+            if c is not True:
+                cases.append((conds + ([T.not_(c)] if c is not False else []), tuple(('out', b) for b in no) + WIN, 'done'))
         else:
             raise ValueError(position)
     return cases
@@ -139,6 +147,10 @@ def use_text(position, expr, is_bool):
         return "bool once = true; while (%s) { write('T'); once = false; break; } if (once) { write('F'); }" % expr
     if position == 'defeat':
         return "try { !truth_is_defeat(%s); write('N'); } undo { write('D'); }" % expr
+    if position == 'else-defeat':
+        return "try { if (%s) { write('T'); } else { write('F'); !is_defeat(); } write('N'); } undo { write('D'); }" % expr
+    if position == 'then-defeat':
+        return "try { if (%s) { write('T'); !is_defeat(); } else { write('F'); } write('N'); } undo { write('D'); }" % expr
     raise ValueError(position)
 
 
@@ -173,6 +185,10 @@ def templates(W, tier, rng):
                     if quick and (kl, kr) not in (('param', 'param'), ('param', 'lit'), ('lit', 'param'), ('call', 'call'), ('global', 'call'), ('elem', 'elem')) and pos != 'branch':
                         continue
                     yield dict(fam='cmp', op=op, tl=tl, tr=tr, kl=kl, kr=kr, pos=pos, W=W)
+                if (kl, kr) in (('param', 'param'), ('param', 'lit'), ('lit', 'param'), ('call', 'elem')) or not quick:
+                    # a branch one of whose arms leads to defeat: the comparison decides a Turing jump from both sides
+                    for pos in ('else-defeat', 'then-defeat'):
+                        yield dict(fam='cmp', op=op, tl=tl, tr=tr, kl=kl, kr=kr, pos=pos, W=W)
     # boolean equality, logical operators, not
     bkinds = ['cmp', 'cast', 'var', 'elem', 'call', 'lit']
     for op in ('==', '!=', 'and', 'or'):
@@ -180,10 +196,10 @@ def templates(W, tier, rng):
             for kr in bkinds:
                 if kl == 'lit' and kr == 'lit':
                     continue
-                for pos in ('value', 'branch', 'defeat') + (() if quick else ('stored', 'while')):
+                for pos in ('value', 'branch', 'defeat') + (('else-defeat', 'then-defeat') if (kl, kr) in (('cmp', 'cmp'), ('var', 'call'), ('cast', 'elem')) or not quick else ()) + (() if quick else ('stored', 'while')):
                     yield dict(fam='bool2', op=op, kl=kl, kr=kr, pos=pos, W=W)
     for kl in bkinds[:-1]:
-        for pos in ('value', 'branch', 'defeat', 'stored'):
+        for pos in ('value', 'branch', 'defeat', 'stored', 'else-defeat', 'then-defeat'):
             yield dict(fam='not', kl=kl, pos=pos, W=W)
             yield dict(fam='notnot', kl=kl, pos=pos, W=W)
     # unary minus / plus
